@@ -441,6 +441,10 @@ Definition to_full_name (digest : bytes) (n : name) : pres name :=
   | Some l => if ctyp l =? 1 then POk n else POk (n ++ [mkc 1 digest])
   end.
 
+(* the 16 bytes HashInto feeds before the value, as a function of the type and the value length (used by the runner for
+   values too long to materialise as a Coq list; Wire.v: comp_hash_input c = header ++ value) *)
+Definition comp_hash_header (t len : N) : bytes := be 8 t ++ be 8 len.
+
 (* the hash input before the fix: no length, hence no component boundaries (kept to show the length is needed) *)
 Definition comp_hash_input_nolen (c : comp) : bytes := be 8 (ctyp c) ++ cval c.
 Definition name_hash_input_nolen (n : name) : bytes := concat (map comp_hash_input_nolen n).
